@@ -152,47 +152,20 @@ variable (H : Hasher Node VH) [DecidableEq Node]
 
 /-! ## `count_leaves` -/
 
-/-- the inner `while pos.depth() != initial_depth && pos.peek_last_bit() { pos.up(1) }` -/
-def climb : Nat → Pos → WR Pos
-  | 0, _ => .panic "count_leaves: fuel"
-  | f + 1, pos =>
-    if pos.depth = 0 then .ok pos else
-    match pos.peekLastBit with
-    | none => .panic "count_leaves: peek_last_bit"
-    | some true =>
-      match pos.up 1 with
-      | none => .panic "count_leaves: up"
-      | some p => climb f p
-    | some false => .ok pos
-
-/-- the `loop` of `count_leaves` -/
-def countLoop (pg : Page Node) : Nat → Pos → Nat → WR Nat
-  | 0, _, _ => .panic "count_leaves: fuel"
-  | f + 1, pos, counter =>
-    match pg.getNode H pos.nodeIndex with
-    | .panic s => .panic s
-    | .err e => .err e
-    | .ok node =>
-      if H.kind node = .internal ∧ pos.depthInPage ≠ DEPTH then
-        match pos.down false with
-        | none => .panic "count_leaves: down"
-        | some p => countLoop pg f p counter
-      else
-        let counter := if H.kind node = .leaf then counter + 1 else counter
-        match climb 8 pos with
-        | .panic s => .panic s
-        | .err e => .err e
-        | .ok pos =>
-          if pos.depth = 0 then .ok counter else
-          match pos.sibling with
-          | none => .panic "count_leaves: sibling"
-          | some p => countLoop pg f p counter
+/-- The pre-order walk of `count_leaves` below the node at `idx` of in-page layer `7 - rem`: the Rust loop descends to the
+left child while the node is internal and not in the last layer, counts a leaf, then climbs while it is a right child and
+steps to the sibling — the depth-first pre-order of the in-page tree, written here as the recursion over the layers.
+(Node indices stay below 126 by construction, so `page.node(..)` cannot fail.) -/
+def countFrom (pg : Page Node) : (rem : Nat) → (idx : Nat) → Nat
+  | 0, _ => 0
+  | rem + 1, idx =>
+    let node := pg.nodes.getD idx H.term
+    if H.kind node = .internal ∧ rem ≠ 0 then
+      countFrom pg rem (2 * idx + 2) + countFrom pg rem (2 * idx + 3)
+    else if H.kind node = .leaf then 1 else 0
 
 /-- `count_leaves` -/
-def countLeaves (pg : Page Node) : WR Nat :=
-  match Pos.new.down false with
-  | none => .panic "count_leaves: down"
-  | some p => countLoop H pg 300 p 0
+def countLeaves (pg : Page Node) : Nat := countFrom H pg 6 0 + countFrom H pg 6 1
 
 /-! ## node access -/
 
@@ -299,38 +272,35 @@ def Walker.handleElision (w : Walker Node) : WR (Walker Node) :=
       match sp.childrenLeaves.or sp.prevChildrenLeaves with
       | none => keepPage w sp parent rest
       | some clc =>
-        match countLeaves H sp.page with
-        | .panic s => .panic s
-        | .err e => .err e
-        | .ok plc =>
-          if plc + clc < PAGE_ELISION_THRESHOLD ∧ ¬ w.inhibitElision then
-            -- the parent's counter of leaves in child pages
-            let parentR : WR (StackPage Node) :=
-              match parent.childrenLeaves.or parent.prevChildrenLeaves with
-              | none => .ok parent
-              | some pclc =>
-                let prevPlc := sp.pageLeaves.getD 0
-                let pageDelta : Int := (plc : Int) - (prevPlc : Int)
-                match sp.prevChildrenLeaves with
-                | none => .panic "handle_elision_threshold: prev_children_leaves_counter.unwrap()"
-                | some prevClc =>
-                  let childrenDelta : Int := (clc : Int) - (prevClc : Int)
-                  let n : Int := (pclc : Int) + pageDelta + childrenDelta
-                  if n < 0 then .panic "handle_elision_threshold: try_into().unwrap()"
-                  else .ok { parent with childrenLeaves := some n.toNat }
-            match parentR with
-            | .panic s => .panic s
-            | .err e => .err e
-            | .ok parent =>
-              match childIndexAtLevel sp.pageId (sp.pageId.length - 1) with
-              | none => .panic "handle_elision_threshold: child_index_at_level"
-              | some ci =>
-                let parent := { parent with elided := PageLayout.elidedSet parent.elided ci true }
-                let w := { w with stack := parent :: rest }
-                if w.reconstruction then pushReconstructed w sp
-                else if sp.bucket.isSome then .ok (pushUpdated w { sp with diff := sp.diff.setCleared })
-                else .ok w
-          else keepPage w sp parent rest
+        let plc := countLeaves H sp.page
+        if plc + clc < PAGE_ELISION_THRESHOLD ∧ ¬ w.inhibitElision then
+          -- the parent's counter of leaves in child pages
+          let parentR : WR (StackPage Node) :=
+            match parent.childrenLeaves.or parent.prevChildrenLeaves with
+            | none => .ok parent
+            | some pclc =>
+              let prevPlc := sp.pageLeaves.getD 0
+              let pageDelta : Int := (plc : Int) - (prevPlc : Int)
+              match sp.prevChildrenLeaves with
+              | none => .panic "handle_elision_threshold: prev_children_leaves_counter.unwrap()"
+              | some prevClc =>
+                let childrenDelta : Int := (clc : Int) - (prevClc : Int)
+                let n : Int := (pclc : Int) + pageDelta + childrenDelta
+                if n < 0 then .panic "handle_elision_threshold: try_into().unwrap()"
+                else .ok { parent with childrenLeaves := some n.toNat }
+          match parentR with
+          | .panic s => .panic s
+          | .err e => .err e
+          | .ok parent =>
+            match childIndexAtLevel sp.pageId (sp.pageId.length - 1) with
+            | none => .panic "handle_elision_threshold: child_index_at_level"
+            | some ci =>
+              let parent := { parent with elided := PageLayout.elidedSet parent.elided ci true }
+              let w := { w with stack := parent :: rest }
+              if w.reconstruction then pushReconstructed w sp
+              else if sp.bucket.isSome then .ok (pushUpdated w { sp with diff := sp.diff.setCleared })
+              else .ok w
+        else keepPage w sp parent rest
 
 /-! ## moves -/
 
@@ -500,7 +470,7 @@ def Walker.popAll : Nat → Walker Node → WR (Walker Node)
     | .ok w => Walker.popAll n w
 
 /-- the `while Some(&cur_ancestor) != target.as_ref()` loop of `build_stack`: the pages pushed, deepest first
-(= top first after the `reverse`).  At most 43 ancestors exist. -/
+(= top first after the `reverse`).  The fuel `cur.length + 1` is exact: every round shortens the id by one. -/
 def pushLoop (ps : PageSet Node) (target : Option PageId) : Nat → PageId → WR (List (StackPage Node))
   | 0, _ => .panic "build_stack: fuel"
   | f + 1, cur =>
@@ -532,7 +502,7 @@ def Walker.buildStack (ps : PageSet Node) (w : Walker Node) (position : Pos) : W
           match w.stack with
           | top :: _ => some top.pageId
           | [] => w.parentPage
-        match pushLoop ps target 64 pid with
+        match pushLoop ps target (pid.length + 1) pid with
         | .panic s => .panic s
         | .err e => .err e
         | .ok pushed => .ok { w with stack := pushed ++ w.stack }
@@ -774,14 +744,10 @@ structure Reconstructed (Node : Type) where
 def reconMap : List (PageOut Node) → WR (List (Reconstructed Node))
   | [] => .ok []
   | .reconstructed pid pg cl d :: rest =>
-    match countLeaves H pg with
+    match reconMap rest with
     | .panic s => .panic s
     | .err e => .err e
-    | .ok pl =>
-      match reconMap rest with
-      | .panic s => .panic s
-      | .err e => .err e
-      | .ok l => .ok (⟨pid, pg, d, pl, cl⟩ :: l)
+    | .ok l => .ok (⟨pid, pg, d, countLeaves H pg, cl⟩ :: l)
   | .updated .. :: _ => .panic "reconstruct: unreachable!()"
 
 /-- `reconstruct_pages` -/
